@@ -4,6 +4,7 @@ package supervisor
 
 import (
 	"context"
+	"errors"
 	"os"
 	"os/exec"
 	"syscall"
@@ -35,6 +36,7 @@ type vProc struct {
 	gotTerm    bool
 	gotKill    bool
 	isChild    bool
+	forked     bool
 	ps         *os.ProcessState
 	name       string
 }
@@ -103,6 +105,7 @@ func verifInstallOS() *vOS {
 		o.procs = append(o.procs, p)
 		o.byCmd[c] = p
 		o.byPS[p.ps] = p
+		p.forked = o.nextForks
 		if o.nextForks {
 			// a forked child in the same group, a well-behaved one (SIGKILL works)
 			ch := &vProc{pid: p.pid + 1, pgid: p.pgid, alive: true, behaviour: vbIgnoresTerm, isChild: true}
@@ -116,6 +119,11 @@ func verifInstallOS() *vOS {
 		verifWaitUntil(func() bool { return !p.alive })
 		p.reaped = true
 		if p.status == 0 {
+			if c.WaitDelay > 0 && p.forked {
+				// os/exec: with a WaitDelay, a successful exit whose output pipes are still held
+				// open by a descendant makes Wait return ErrWaitDelay
+				return errors.New("exec: WaitDelay expired before I/O complete")
+			}
 			return nil
 		}
 		return &exec.ExitError{ProcessState: p.ps}
@@ -359,3 +367,47 @@ func VerifC19One3() { verifC19(1, 3, false) }
 func VerifC19Two2() { verifC19(2, 2, false) }
 func VerifC19Two3() { verifC19(2, 3, false) }
 func VerifC19Two1() { verifC19(2, 1, false) }
+
+// Requests on different processes do not wait for each other: while a Kill of a process that
+// resists SIGKILL is blocked until its deadline, Terminate and Kill of another process complete
+// at once.
+func VerifC19Concurrent() {
+	o := verifInstallOS()
+	s := NewLocalSupervisor()
+	evCh, _ := s.Events(context.Background(), nil)
+	verifDaemon("VerifC19Concurrent")
+	verifDaemon("Exec$1") // the Wait goroutine of a process that never ends
+	verifSpawnEnv(func() {
+		for {
+			<-evCh
+		}
+	})
+	o.nextUnkillable = true
+	verifAssert(s.Exec(context.Background(), &model.ExecRequest{Domain: "runtime", Name: "stuck-1", Path: "/bin/proc"}) == nil, "exec")
+	a := o.procs[0]
+	o.nextUnkillable = false
+	o.nextBehaviour = verifChoice(3, "reaction to SIGTERM")
+	verifAssert(s.Exec(context.Background(), &model.ExecRequest{Domain: "runtime", Name: "other-1", Path: "/bin/proc"}) == nil, "exec")
+	b := o.procs[1]
+	t0 := time.Now()
+	var killErr error
+	killDone := false
+	verifSpawn(func() {
+		killErr = s.Kill(context.Background(), &model.KillRequest{Domain: "runtime", Name: "stuck-1", Deadline: t0.Add(time.Second)})
+		killDone = true
+	})
+	verifWaitUntil(func() bool { return a.gotKill })
+	if verifChoice(2, "request on the other process") == 0 {
+		err := s.Terminate(context.Background(), &model.TerminateRequest{Domain: "runtime", Name: "other-1"})
+		verifAssert(err == nil && b.gotTerm, "Terminate reaches the other process")
+		verifReach("terminate-while-kill-blocked")
+	} else {
+		err := s.Kill(context.Background(), &model.KillRequest{Domain: "runtime", Name: "other-1", Deadline: time.Now().Add(time.Second)})
+		verifAssert(err == nil && !b.alive, "Kill of the other process succeeds")
+		verifReach("kill-while-kill-blocked")
+	}
+	verifAssert(!killDone && time.Since(t0) < time.Second/2, "a request on another process does not wait for a blocked Kill")
+	verifWaitUntil(func() bool { return killDone })
+	verifAssert(killErr != nil, "the Kill of the resisting process fails at its deadline")
+	verifReach("done")
+}
